@@ -9,7 +9,7 @@
 Each patch is applied to a scratch copy of /repo/pyModelChecking (never to
 /repo); checks run with --repo <copy> --no-evidence.
 
-usage: regress.py [--jobs N] [--only seeded|benign] [name-substring ...]
+usage: regress.py [--update-meta] [--jobs N] [--only seeded|benign] [name-substring ...]
 """
 import json
 import os
@@ -56,6 +56,10 @@ def main():
     args = sys.argv[1:]
     jobs = 8
     only = None
+    update_meta = False
+    if args and args[0] == '--update-meta':
+        update_meta = True
+        args = args[1:]
     if args and args[0] == '--jobs':
         jobs = int(args[1])
         args = args[2:]
@@ -77,6 +81,7 @@ def main():
                                         any(a in n for a in args)):
                 work.append(('benign', n[:-5], os.path.join(bd, n)))
     bad = 0
+    collected = {}
     with ThreadPoolExecutor(jobs) as ex:
         futs = [ex.submit(run_patch, k, n, p, props) for (k, n, p) in work]
         for fu in futs:
@@ -85,6 +90,7 @@ def main():
                 print('%-8s %-22s ERROR %s' % (kind, name, err))
                 bad += 1
                 continue
+            collected[(kind, name)] = res
             det = sorted(k for k, v in res.items() if v[0] == 1)
             inc = sorted(k for k, v in res.items() if v[0] == 2)
             if kind == 'seeded':
@@ -101,7 +107,89 @@ def main():
                     print('      %s: %s' % (k, res[k][1]))
             sys.stdout.flush()
     print('regress: %d patches, %d failures' % (len(work), bad))
+    if update_meta:
+        write_meta(collected)
     sys.exit(1 if bad else 0)
+
+
+def write_meta(collected):
+    """refresh detected_by / inconclusive_in / reports in the seeds'
+    meta.json and regenerate seeded/INDEX.md and benign/INDEX.md"""
+    sd = os.path.join(VERIF, 'seeded')
+    rows = []
+    for n in sorted(os.listdir(sd)):
+        mf = os.path.join(sd, n, 'meta.json')
+        if not os.path.exists(mf):
+            continue
+        meta = json.load(open(mf))
+        if ('seeded', n) in collected:
+            res = collected[('seeded', n)]
+            meta['detected_by'] = sorted(k for k, v in res.items()
+                                         if v[0] == 1)
+            meta['inconclusive_in'] = sorted(k for k, v in res.items()
+                                             if v[0] == 2)
+            meta['reports'] = {k: [v[1]] for k, v in res.items()
+                               if v[0] != 0}
+            note = ('detected_by refreshed by tools/regress.py: patch '
+                    'applied to a scratch copy of /repo/pyModelChecking, '
+                    'every check run with --repo <copy>')
+            if note not in meta['what_was_run']:
+                meta['what_was_run'].append(note)
+            json.dump(meta, open(mf, 'w'), indent=1)
+        rows.append(meta)
+    with open(os.path.join(sd, 'INDEX.md'), 'w') as fh:
+        fh.write('# Seeded changes and the checks that catch them\n\n')
+        fh.write('Each directory holds `patch.diff` (apply with `git -C '
+                 '/repo apply`), `demo.py` (fails with the patch, passes '
+                 'without; run with the patched tree as cwd), `notes.md`, '
+                 '`meta.json`. Names: `<property>_<a|b>` first round, '
+                 '`<property>_2<a|b|c>` second round.\n\n')
+        fh.write('| seed | breaks | confirmed | detected by (exit 1) | '
+                 'inconclusive (exit 2) |\n|---|---|---|---|---|\n')
+        for m in rows:
+            fh.write('| %s | %s | %s | %s | %s |\n' % (
+                m['seed'], m['breaks_property'], m['confirmed'],
+                ', '.join(m['detected_by']) or '**none**',
+                ', '.join(m['inconclusive_in']) or ''))
+        det = sum(1 for m in rows if m['detected_by'])
+        fh.write('\n%d of %d confirmed seeded changes are reported with a '
+                 'VIOLATION by at least one check.\n' % (det, len(rows)))
+    bd = os.path.join(VERIF, 'benign')
+    # results of earlier runs are kept, so that a partial run refreshes only
+    # the patches it evaluated
+    cache = os.path.join(bd, 'results.json')
+    old = json.load(open(cache)) if os.path.exists(cache) else {}
+    for (k, n), res in collected.items():
+        if k == 'benign':
+            old[n] = {c: v[0] for c, v in res.items()}
+    old = {n: r for n, r in old.items()
+           if os.path.exists(os.path.join(bd, n + '.diff'))}
+    json.dump(old, open(cache, 'w'), indent=1, sort_keys=True)
+    collected = {('benign', n): {c: (rc, '') for c, rc in r.items()}
+                 for n, r in old.items()}
+    with open(os.path.join(bd, 'INDEX.md'), 'w') as fh:
+        fh.write('# Behaviour-preserving refactorings and what the checks '
+                 'say\n\n`<area>_rN` first round (tidying), `<area>2_rN` '
+                 'second round (structural). A check that exits 1 on one of '
+                 'these is a false alarm.\n\n| patch | exit 1 (false alarm) '
+                 '| exit 2 (inconclusive) |\n|---|---|---|\n')
+        nb = nf = ni = 0
+        for (k, n), res in sorted(collected.items()):
+            if k != 'benign':
+                continue
+            nb += 1
+            det = sorted(c for c, v in res.items() if v[0] == 1)
+            inc = sorted(c for c, v in res.items() if v[0] == 2)
+            nf += bool(det)
+            ni += bool(inc)
+            fh.write('| %s | %s | %s |\n' % (n, ', '.join(det) or '-',
+                                             ', '.join(inc) or '-'))
+        fh.write('\n%d refactorings: %d with a false alarm, %d with at '
+                 'least one inconclusive check, %d fully decided.\n' % (
+                     nb, nf, ni, nb - len([1 for (k, n), res in
+                                           collected.items() if k == 'benign'
+                                           and any(v[0] != 0 for v in
+                                                   res.values())])))
 
 
 if __name__ == '__main__':
